@@ -169,6 +169,24 @@ fn replay(path: &str) -> i32 {
     };
     let check = v["check"].as_str().unwrap_or("").to_string();
     let property = v["property"].as_str().unwrap_or("").to_string();
+    if check == "c19-processes" || check == "c05-nopar" {
+        let pid: &'static str = if check == "c19-processes" { "C19" } else { "C05" };
+        return match vcheck::p_builder::replay_external(pid, &v["case"]) {
+            Err(e) => {
+                eprintln!("INCONCLUSIVE (harness error): {}", e);
+                2
+            }
+            Ok(Ok(())) => {
+                println!("replay of {} passes", path);
+                0
+            }
+            Ok(Err(m)) => {
+                println!("VIOLATION property={} replay={}", pid, path);
+                println!("  check={} : {}", check, m);
+                1
+            }
+        };
+    }
     if check == "c06-programs" {
         return match p_prog::replay_c06(&v["case"]) {
             Err(e) => {
